@@ -5,6 +5,7 @@ package harness
 import (
 	"fmt"
 	"math/big"
+	"os"
 	"regexp"
 	"sort"
 	"strings"
@@ -556,6 +557,61 @@ type OracleC12 struct {
 	// another validator raises). From then on the pool may be short by design of that defect.
 	tainted      bool
 	pendingTaint bool
+	// ownerless: rewards that entered the pool for validators without any alliance delegator
+	// shares (the module keeps dust stake there): they back nobody's entitlement, so what the
+	// delegations can claim must be covered by the pool WITHOUT them
+	ownerless sdk.Coins
+	prePend   []sdk.Coins
+	eobPend   []sdk.Coins
+}
+
+// EndOfBlock: pending rewards at the block boundary (after the end-blockers, before the allocation).
+func (o *OracleC12) EndOfBlock(x *Exec) { o.eobPend = pendingRewards(x.W, x.Ctx) }
+
+func noDelegatorShares(v *ValSnap) bool {
+	for _, sh := range v.DelShares {
+		if !sh.IsZero() {
+			return false
+		}
+	}
+	return true
+}
+
+// trackOwnerless adds what this step certainly moved into the pool for ownerless validators: the
+// drop of their pending x/distribution rewards, capped by the pool's net increase.
+func (o *OracleC12) trackOwnerless(x *Exec, op *Op, res *Res) {
+	if o.prePend == nil || op.K == KSlash || op.K == KSlashHook {
+		return
+	}
+	after := o.eobPend
+	if op.K != KBlock {
+		after = pendingRewards(x.W, x.Ctx)
+	}
+	if after == nil || (op.K == KBlock && (res.AllianceEBErr != "" || res.StakingEBErr != "")) {
+		return
+	}
+	pre, post := x.Pre(), x.Post()
+	if op.K == KBlock {
+		post = x.EndSnap
+	}
+	drop := sdk.NewCoins()
+	for v := range pre.Vals {
+		if !noDelegatorShares(&pre.Vals[v]) || !noDelegatorShares(&post.Vals[v]) {
+			continue
+		}
+		for _, c := range o.prePend[v] {
+			if d := c.Amount.Sub(after[v].AmountOf(c.Denom)); d.IsPositive() {
+				drop = drop.Add(sdk.NewCoin(c.Denom, d))
+			}
+		}
+	}
+	for _, c := range drop {
+		inc := post.Rewards.AmountOf(c.Denom).Sub(pre.Rewards.AmountOf(c.Denom))
+		if inc.IsPositive() {
+			o.ownerless = o.ownerless.Add(sdk.NewCoin(c.Denom, math.MinInt(inc, c.Amount)))
+			x.Label("c12:ownerless-rewards-entered-the-pool")
+		}
+	}
 }
 
 // unclaimed reports whether any position has rewards accrued but not yet claimed in state s
@@ -594,6 +650,7 @@ func unclaimedRewards(w *World, ctx sdk.Context, s *Snap) bool {
 
 func (*OracleC12) Name() string { return "C12" }
 func (o *OracleC12) Before(x *Exec, op *Op) {
+	o.prePend = pendingRewards(x.W, x.Ctx)
 	if (op.K == KSlash || op.K == KSlashHook) && !o.tainted && unclaimedRewards(x.W, x.Ctx, x.Pre()) {
 		o.pendingTaint = true
 	}
@@ -612,6 +669,7 @@ func (o *OracleC12) After(x *Exec, op *Op, res *Res) {
 	if op.K == KSlash || op.K == KSlashHook {
 		checkCallbackClaimsIdempotent(x, "C12", op)
 	}
+	o.trackOwnerless(x, op, res)
 	if o.pendingTaint {
 		o.pendingTaint = false
 		if x.L.LastSlashFrac != nil {
@@ -684,6 +742,13 @@ func (o *OracleC12) After(x *Exec, op *Op, res *Res) {
 		sort.SliceStable(order, func(i, j int) bool { return order[i].Key() > order[j].Key() })
 	}
 	c, _ := x.Ctx.CacheContext()
+	// what the settle loop below moves into the pool for validators without delegator shares
+	ownerlessNow := sdk.NewCoins()
+	for v, pc := range pendingRewards(w, c) {
+		if noDelegatorShares(&s.Vals[v]) {
+			ownerlessNow = ownerlessNow.Add(pc...)
+		}
+	}
 	// settle every validator's pending rewards first (what each claim would do anyway), so
 	// that the indices the claims will use are observable for the rounding allowance
 	func() {
@@ -758,8 +823,22 @@ func (o *OracleC12) After(x *Exec, op *Op, res *Res) {
 	if len(unclaimedVals) >= 2 && len(s.Dels) >= 2 {
 		x.Label("c12:unclaimed-on>=2-validators")
 	}
-	_ = poolBefore
-	_ = math.ZeroInt
+	// backed: every entitlement is covered by rewards received for validators that had delegators
+	for _, pc := range paid {
+		backed := new(big.Rat).SetInt(poolBefore.AmountOf(pc.Denom).Sub(o.ownerless.AmountOf(pc.Denom)).Sub(ownerlessNow.AmountOf(pc.Denom)).BigInt())
+		bound := o.roundingBound(s, pc.Denom)
+		over := new(big.Rat).Sub(intRat(pc.Amount), backed)
+		if os.Getenv("VERIF_DEBUG") != "" {
+			fmt.Printf("C12 step %d: claimable %s backed %s pool %s bound %s\n", len(x.Log)-1, pc, backed.FloatString(0), poolBefore, bound.FloatString(3))
+		}
+		if over.Sign() > 0 {
+			noteErr(x, "c12-claimable-over-backed/allowance", over, bound)
+		}
+		if over.Cmp(bound) > 0 {
+			x.Fail("C12", "backed", "all delegations together can claim %s but the rewards pool holds only %s%s that were received for validators with delegators (pool %s, of which %s entered it for validators without any delegator; rounding allowance %s)",
+				pc, backed.FloatString(0), pc.Denom, poolBefore.AmountOf(pc.Denom), o.ownerless.AmountOf(pc.Denom).Add(ownerlessNow.AmountOf(pc.Denom)), bound.FloatString(3))
+		}
+	}
 }
 
 // roundingBound is the allowance of the listed finding F-C12b for reward denom d: per
